@@ -2748,7 +2748,16 @@ static unsigned long long stringToULLbounded(
     std::size_t maxlen = std::string::npos
     )
 {
-    const std::string sub = s.substr(pos, maxlen);
+    // only digits of the base belong to an escape sequence; strtoull alone would also accept leading white space,
+    // a sign and (base 16) a "0x" prefix: '\x0x4' is the three characters \x0, x and 4
+    std::string sub = s.substr(pos, maxlen);
+    if (base == 8 || base == 16) {
+        std::size_t ndigits = 0;
+        while (ndigits < sub.size() &&
+               (base == 8 ? (sub[ndigits] >= '0' && sub[ndigits] <= '7') : (std::isxdigit(static_cast<unsigned char>(sub[ndigits])) != 0)))
+            ++ndigits;
+        sub.resize(ndigits);
+    }
     const char * const start = sub.c_str();
     char* end;
     const unsigned long long value = std::strtoull(start, &end, base);
